@@ -1,5 +1,6 @@
 (* Model runner for component crc (property C15): see harness/src/crc.rs for the op format.
-   The frame check of the model is Crc.crc_frame_ok on the corrupted octet string. *)
+   The model's verdict on an arrival is CrcBits.receiver_frame_check: delimit the frame from the
+   four fixed header octets (frame_span), then Crc.crc_frame_ok on exactly those octets. *)
 open Model
 open Conv
 
@@ -10,6 +11,8 @@ let bytes_of_hex_arr (s : string) : int array =
 (* the 256 octet values as model numbers, converted once *)
 let octet : n array = Array.init 256 n_of_int
 let nlist_of_arr (a : int array) : n list = Array.fold_right (fun x acc -> octet.(x) :: acc) a []
+
+let rec int_of_nat = function O -> 0 | S k -> 1 + int_of_nat k
 
 (* bit length of a pattern *)
 let bitlen (p : int) : int =
@@ -35,6 +38,8 @@ let run path =
     (fun (hdr, ops) ->
       Printf.printf "CASE %s\n" (List.hd hdr);
       let frame = ref [||] in
+      let trailing = ref [||] in
+      let check (a : int array) = receiver_frame_check (nlist_of_arr (Array.append a !trailing)) in
       List.iter
         (fun l ->
           match split_ws l with
@@ -48,11 +53,17 @@ let run path =
               print_endline (Buffer.contents buf)
           | [ "F"; h ] ->
               frame := bytes_of_hex_arr h;
-              print_endline (if crc_frame_ok (nlist_of_arr !frame) then "SAME" else "REJECT")
+              print_endline (if check !frame then "SAME" else "REJECT")
+          | [ "T"; h ] -> (
+              trailing := bytes_of_hex_arr h;
+              let all = nlist_of_arr (Array.append !frame !trailing) in
+              match (receiver_frame_check all, receiver_consumed all) with
+              | true, Some n -> Printf.printf "SAME %d\n" (int_of_nat n)
+              | _ -> print_endline "REJECT")
           | [ "E"; pos; pat ] -> (
               match apply !frame (int_of_string pos) (int_of_string ("0x" ^ pat)) with
               | None -> print_endline "SKIP"
-              | Some bad -> print_endline (if crc_frame_ok (nlist_of_arr bad) then "ACCEPT" else "REJECT"))
+              | Some bad -> print_endline (if check bad then "ACCEPT" else "REJECT"))
           | [ "BA"; pos; len ] ->
               let pos = int_of_string pos and len = int_of_string len in
               let n = ref 0 and r = ref 0 and a = ref 0 and first = ref (-1) in
@@ -61,7 +72,7 @@ let run path =
                 | None -> ()
                 | Some bad ->
                     incr n;
-                    if crc_frame_ok (nlist_of_arr bad) then begin
+                    if check bad then begin
                       incr a;
                       if !first < 0 then first := pat
                     end
